@@ -230,11 +230,14 @@ func (w *c13World) c13V2Close() {
 		// the steps inside the auction module: the bid is in escrow, token-mint can burn it (surplus) / mint the lot (debt)
 		escrow := bal(a, w.ctx, modAddr(auctionsV2types.ModuleName), au.DebtToken.Denom).GTE(au.DebtToken.Amount)
 		canBurn := w.c13MintOK(au.AppId, au.DebtAssetId, au.DebtToken.Amount, true)
+		lot0 := bal(a, w.ctx, modAddr(auctiontypes.ModuleName), au.CollateralToken.Denom)
 		canMint := w.c13MintOK(au.AppId, au.DebtAssetId, au.CollateralToken.Amount, false)
 		res := w.c13Apply(func(ctx sdk.Context) error { return a.NewaucKeeper.CloseEnglishAuction(ctx, auc) })
 		switch {
 		case lv.InitiatorType == "surplus":
-			w.tr.p("ext %s", b2s(escrow && canBurn))
+			// the lot waits in the generation-1 auction module account (GetAmountFromCollector put it there)
+			lotDenom := au.CollateralToken.Denom
+			w.tr.p("ext %s", b2s(escrow && canBurn && lot0.GTE(au.CollateralToken.Amount) && lotDenom != ""))
 			w.tr.p("op v2sc %d %d %s %s", au.AppId, au.CollateralAssetId, au.CollateralToken.Amount, res)
 		case lv.InitiatorType == "debt":
 			w.tr.p("ext %s", b2s(escrow && canMint))
